@@ -89,6 +89,7 @@ type tickObs struct {
 	NTopDel  int      `json:"ntopdel"`
 	NBotDel  int      `json:"nbotdel"`
 	NCtlDel  int      `json:"nctldel"`
+	NCtlQ    int      `json:"nctlq"`  // Control outgoing buffer length right after the Tick
 	BotIDs   []uint64 `json:"botids"` // resolved (relative) RspTo of the scripted Bottom responses
 }
 
@@ -190,6 +191,7 @@ func execute(in input) ([]tickObs, error) {
 		ob.Progress = comp.Tick()
 		ob.NTrans = len(comp.State.Transactions)
 		ob.CState = int(comp.State.ControlState)
+		ob.NCtlQ = ctl.NumOutgoing()
 		for i := 0; i < st.DrainCtl; i++ {
 			m := ctl.RetrieveOutgoing()
 			if m == nil {
@@ -339,7 +341,7 @@ func run(raw json.RawMessage) (hx.Case, error) {
 		script[i] = hx.App("mk_instant", hx.B(st.Ckpt), hx.L(qs), hx.L(bs), hx.L(cs), hx.Nat(st.DrainTop), hx.Nat(st.DrainBot), hx.Nat(st.DrainCtl))
 		ticks[i] = hx.App("mk_tobs", hx.B(obs[i].Progress), hx.L(obs[i].Top), hx.L(obs[i].Bot), hx.L(obs[i].Ctl),
 			hx.N(uint64(obs[i].NTrans)), hx.N(uint64(obs[i].CState)),
-			hx.Nat(obs[i].NTopDel), hx.Nat(obs[i].NBotDel), hx.Nat(obs[i].NCtlDel))
+			hx.Nat(obs[i].NTopDel), hx.Nat(obs[i].NBotDel), hx.Nat(obs[i].NCtlDel), hx.Nat(obs[i].NCtlQ))
 		nrsp += len(obs[i].Top)
 		nshadow += len(obs[i].Bot)
 	}
